@@ -64,5 +64,8 @@ def run_chunk(driver, chunk, nchunks, tier, seed, time_budget_s=None):
 
 
 def _s(x, n=300):
-    s = x if isinstance(x, str) else repr(x)
+    try:
+        s = x if isinstance(x, str) else repr(x)
+    except ValueError:          # repr of an int beyond the digit limit
+        s = '<' + type(x).__name__ + ' too large to print>'
     return s if len(s) <= n else s[:n] + '...'
